@@ -15,6 +15,7 @@ def plan(ctx):
     for m in fam:
         by.setdefault(m["kind"], []).append(m)
     quick.update(m["name"] for m in by["layout_enc"] if m["sb"] in (2, 30, 66, 128, 194, 320) and m["rate"] == ("high" if m["sb"] % 4 else "low"))
+    quick.update(m["name"] for m in by["layout_range"] if (m["rate"], m["r"], m["sb"]) in (("high", 5, 66), ("low", 9, 130), ("high", 8, 190), ("low", 4, 30)))
     quick.update(m["name"] for m in rnd.sample(by["layout_work"], 5))
     quick.update(m["name"] for m in rnd.sample([m for m in by["enc_slot"] if m["sb"] <= 66 and m["k"] + m["r"] == 3], 3))
     quick.update(m["name"] for m in rnd.sample([m for m in by["enc_slot"] if m["sb"] == 30 and m["k"] + m["r"] == 5], 1))
@@ -27,6 +28,12 @@ def plan(ctx):
                               f"shard size {m['sb']}: a fully symbolic shard through the real {m['rate']}-rate encoder (1,1) over the null engine comes back as a recovery shard of exactly {m['sb']} bytes with every symbol slot (nondeterministic slot index) byte-identical: Shards::insert and undo_last_chunk_encoding are inverse",
                               encodes=["Shards::insert", "Shards::undo_last_chunk_encoding", "EncoderWork::recovery (slicing to shard_bytes)", "Shards::resize/index"],
                               bounds=f"shard size {m['sb']} (sizes cover every tail class and 0..5 whole blocks)", flags=FULL, timeout=1500, mem_gb=8,
+                              symbolic="all shard bytes, the slot index", tiers=tiers))
+        elif m["kind"] == "layout_range":
+            hs.append(Harness(f"gen::c04g::{m['name']}", "C04",
+                              f"shard size {m['sb']}: one fully symbolic original through the real {m['rate']}-rate encoder (1,{m['r']}) over an engine whose fft only copies the first shard of its range onto the others: every one of the {m['r']} recovery shards has exactly {m['sb']} bytes and equals the original in every symbol slot (nondeterministic slot index): undo_last_chunk_encoding inverts insert for every shard of a multi-shard range",
+                              encodes=["Shards::insert", "Shards::undo_last_chunk_encoding (range of several shards)", "EncoderWork::recovery", "EncoderWork::undo_last_chunk_encoding", "ShardsRefMut::copy_within / zero"],
+                              bounds=f"shard size {m['sb']}, {m['r']} recovery shards, one original", flags=FULL, timeout=1500, mem_gb=8,
                               symbolic="all shard bytes, the slot index", tiers=tiers))
         elif m["kind"] == "layout_work":
             hs.append(Harness(f"gen::c04g::{m['name']}", "C04",
